@@ -34,6 +34,18 @@ type BlockResult struct {
 	ViewsCompared int
 	OrderSig      string // order of the senders' first relays at a witness (interleaving signature)
 	Desc          []string
+	StepReached   bool     // stepped block: a goroutine was parked at the chosen site while the others ran
+	SitesHit      []string // stepped block: scheduling points passed during the concurrent part
+}
+
+// Step makes a block "stepped": the Skip+1-th goroutine to arrive at Site
+// during the concurrent part is parked there while everything else runs, and
+// released a little later. Any such schedule is one the Go scheduler may
+// produce by itself; the gate only makes it certain.
+type Step struct {
+	Site string
+	Skip int
+	Hold time.Duration
 }
 
 type blockReq struct {
@@ -58,6 +70,12 @@ func bf(props []string, clause, class, format string, a ...any) *check.Finding {
 // are applied: exactly-once / no-echo / per-sender order (C02) and view
 // convergence against a probe (C01).
 func Block(ws *sut.Workspace, p *sut.Proc, cfg e1.Config, class string) (res *BlockResult) {
+	return BlockStepped(ws, p, cfg, class, nil)
+}
+
+// BlockStepped is Block with an optional Step; with step.Site == "" the block
+// runs in sched mode only to learn which points the concurrent part passes.
+func BlockStepped(ws *sut.Workspace, p *sut.Proc, cfg e1.Config, class string, step *Step) (res *BlockResult) {
 	res = &BlockResult{Class: class}
 	r := e1.NewRunner(p, cfg)
 	defer r.CloseAll()
@@ -240,8 +258,44 @@ func Block(ws *sut.Workspace, p *sut.Proc, cfg e1.Config, class string) (res *Bl
 		}()
 		res.Desc = append(res.Desc, fmt.Sprintf("c%d leaves", leaver))
 	}
+	stepDone := make(chan struct{})
+	if step != nil {
+		p.RT("op=reset")
+		p.RT("op=mode&v=2")
+		if step.Site != "" {
+			p.RT(fmt.Sprintf("op=hold&site=%s&skip=%d&max=1", strings.ReplaceAll(step.Site, "#", "%23"), step.Skip))
+			res.Desc = append(res.Desc, fmt.Sprintf("stepped: arrival %d at %s parked", step.Skip+1, step.Site))
+		}
+		go func() {
+			defer close(stepDone)
+			if step.Site == "" {
+				return
+			}
+			site := strings.ReplaceAll(step.Site, "#", "%23")
+			if _, err := p.RT(fmt.Sprintf("op=wait&site=%s&n=1&ms=400", site)); err == nil {
+				res.StepReached = true
+				time.Sleep(step.Hold)
+			}
+			p.RT("op=release&site=" + site)
+		}()
+	} else {
+		close(stepDone)
+	}
 	close(start)
 	wg.Wait()
+	<-stepDone
+	if step != nil {
+		if h, err := p.RTHits(); err == nil {
+			for s, n := range h.Hits {
+				if n > 0 {
+					res.SitesHit = append(res.SitesHit, s)
+				}
+			}
+			sort.Strings(res.SitesHit)
+		}
+		p.RT("op=reset")
+		p.RT("op=mode&v=0")
+	}
 	for c, err := range errs {
 		if err != nil {
 			res.Findings = append(res.Findings, bf([]string{"C09", "C08"}, "block/sender-connection-failed", class, "sender %d: %v (requests %v)", c, err, res.Desc))
